@@ -103,11 +103,11 @@ Qed.
 
 (* ---- re-escaping and Python's decoding ------------------------------------------------------------- *)
 Lemma quotable_raw c : quotable_char c = true ->
-  N.eqb c 92 = false -> N.eqb c 34 = false -> N.eqb c 10 = false -> py_raw_char c = true.
+  N.eqb c 92 = false -> N.eqb c 34 = false -> N.eqb c 10 = false -> N.eqb c 13 = false -> py_raw_char c = true.
 Proof.
-  unfold quotable_char, py_raw_char. intros H H1 H2 H3.
+  unfold quotable_char, py_raw_char. intros H H1 H2 H3 H4.
   repeat (apply andb_prop in H as [H ?]).
-  rewrite H, H1, H2, H3. cbn [negb andb].
+  rewrite H, H1, H2, H3, H4. cbn [negb andb].
   repeat match goal with X : _ = true |- _ => rewrite X end. reflexivity.
 Qed.
 
@@ -123,7 +123,9 @@ Proof.
     + apply N.eqb_eq in E3. subst c. reflexivity.
     + change nl with 10. destruct (N.eqb c 10) eqn:E4.
       * apply N.eqb_eq in E4. subst c. reflexivity.
-      * cbn [py_dq_decode]. rewrite E1, (quotable_raw c Hq E1 E3 E4). reflexivity.
+      * destruct (N.eqb c 13) eqn:E5.
+        -- apply N.eqb_eq in E5. subst c. reflexivity.
+        -- cbn [py_dq_decode]. rewrite E1, (quotable_raw c Hq E1 E3 E4 E5). reflexivity.
 Qed.
 
 Theorem decode_escape_quote_body s : forallb quotable_char s = true ->
@@ -161,11 +163,11 @@ Theorem quote_roundtrip_codepage s : forallb (fun c => mem c codepage) s = true 
     /\ exists text, token_text (fun x => x) (Tok KString v) = TOk text /\ pushed_string text = Some s.
 Proof. intro H. apply quote_roundtrip_raw. apply in_codepage_quotable. exact H. Qed.
 
-(* outside the class the claim is false: a carriage return is emitted raw and ends the line *)
+(* outside the class the claim is false: a NUL character is emitted raw, and Python source cannot hold one *)
 Theorem quote_roundtrip_needs_class :
   exists s, tokenise (quotify_str s) = [Tok KString (quote_body s)]
     /\ py_dq_decode (escape_string (quote_body s)) = None.
-Proof. exists [13]. vm_compute. split; reflexivity. Qed.
+Proof. exists [0]. vm_compute. split; reflexivity. Qed.
 
 (* ---- C06_backquote ---------------------------------------------------------------------------------------- *)
 Theorem backquoted_literal pre s post :
@@ -227,10 +229,9 @@ Section DictProofs.
     unfold printable_ascii, quotable_char. intro H. apply andb_prop in H as [H1 H2].
     apply N.leb_le in H1. apply N.leb_le in H2.
     assert (E0 : N.eqb c 0 = false) by (apply N.eqb_neq; lia).
-    assert (E13 : N.eqb c 13 = false) by (apply N.eqb_neq; lia).
     assert (Es : (55296 <=? c) = false) by (apply N.leb_gt; lia).
     assert (Em : (c <=? 1114111) = true) by (apply N.leb_le; lia).
-    rewrite E0, E13, Es, Em. reflexivity.
+    rewrite E0, Es, Em. reflexivity.
   Qed.
 
   Theorem quote_roundtrip_dict s : forallb printable_ascii s = true ->
